@@ -125,7 +125,7 @@ _rev('C14',
      text='The per-cycle statistic is proved to be the supplied (arbitrary) function applied to exactly the samples carrying each label; the projection to be constant within cycles and NaN elsewhere; every phase bin with samples to hold their mean and empty bins to be missing; every phase-aligned column to be the extrapolating interpolant of exactly that cycle\'s samples evaluated on the phase grid, which is exact for quantities linear in phase - for all lengths and labellings. The interpolation-error clause, weighted / multi-column binning and the get_cycle_stat wrapper are bounded.',
      note=PROOF_NOTE + 'scipy interp1d and the cycle iterator are contract stubs; mean / sum with IEEE NaN semantics in the bin_by_phase unit.')
 _rev('C16',
-     text='Each index map / projection is verified against its set-theoretic contract for all vector lengths and all indices (loops by invariants; composite maps and projections call their callees through the contracts discharged in the callees\' own units); the round-trip statements are lemmas over those contracts. map_chain_to_samples (concatenation of variable-length pieces) is covered by the bounded stand-in only.')
+     text='Each index map / projection is verified against its set-theoretic contract for all vector lengths and all indices (loops by invariants; composite maps and projections call their callees through the contracts discharged in the callees\' own units); the round-trip statements are lemmas over those contracts. map_chain_to_samples (np.hstack of a symbolic number of variable-length pieces, by an assumed contract) is proved to list exactly the samples of the chain; order and multiplicity of that list are bounded.')
 _rev('C19',
      technique=CLAIMED['C19']['technique'].replace('spectra / cycle-detection / second-layer routines', 'sift, get_next_imf, mask / ensemble sifts, envelope / extrema routines, frequency_transform, amplitude_normalise, phase_align, bin_by_phase, spectra, cycle-detection (wrapped and unwrapped phase) and second-layer routines (harnesses of their own properties with read-only arguments)'),
      text='The input validators are proved to accept exactly the documented single-signal layouts (returning the same elements) and to raise for every other extent combination (ensure_equal_dims for two and three arrays); writes into argument buffers / option dicts - item, slice and augmented assignments - are proved absent for the routines listed in the evidence. Layout-equivalence of complete numerical results and determinism are bounded.')
@@ -137,5 +137,13 @@ _rev('C06',
      text=CLAIMED['C06']['text'].replace('For all seven variants and both lower stages,', 'For all seven variants and the lower stages (get_next_imf -> interp_envelope and the stopping rules, interp_envelope -> get_padded_extrema, get_padded_extrema -> _find_extrema and np.pad on every padding round),'))
 _rev('C03',
      text=CLAIMED['C03']['text'].replace('since the extraction is a function of its input the capped run is a prefix of the uncapped one.', 'the sift is proved never to extract again after an extraction that cleared the continue flag; since the extraction is a function of its input the capped run is therefore a prefix of the uncapped one.').replace('ensemble and second-layer results have the documented shapes.', 'ensemble results average the components every member has (members of different sizes) within the cap; second-layer results have the documented shapes.'))
+_rev('C17',
+     technique='deductive: contract of _unique_inds (positions in the original array; sort/where assumed); kdt_match as a whole: the greedy column-by-column assignment loop cut with invariants (marks in different x rows never carry the same y row; every marked y row is recorded in `selected`; marks are 0/1), its body executed on symbolic lists (comprehensions in closure form, `in` on a ghost set, argmin as a Skolem function, scatter store with an arbitrary index list, _unique_inds through its proved contract), the final selection loop and the return statement; VCs from the real source discharged by z3/cvc5; bounded stand-in: random instances 1-4 features x <= 60/200 rows x K 1..15 x 3 bounds, exhaustive small 1-d instances',
+     text='Range, equal length, strict ordering of x indices, no y row twice (one-to-one), K-neighbour membership and the distance bound are proved for every input (K enumerated) under the assumed cKDTree.query contract; _unique_inds is proved to index the original array and to represent every input value (least-index induction: base and step are lemmas, the induction principle is applied by the harness).',
+     note=PROOF_NOTE + 'K enumerated (1,2,3 quick; 5 and 15 in the thorough tier); which claimant wins a contested y row is not specified by the property and not proved.')
+_rev('C03',
+     text=CLAIMED['C03']['text'].replace('For every signal and cap the classic and masked sifts are proved to build column k by (masked) single-IMF extraction from the input minus the first k columns', 'For every signal and cap the classic and masked sifts are proved to build column k by (masked) single-IMF extraction - called with the option set of the caller - from the input minus the first k columns'))
+_rev('C14',
+     note=PROOF_NOTE + 'scipy interp1d and the cycle iterator are contract stubs; np.unwrap by an assumed contract; mean / sum with IEEE NaN semantics in the bin_by_phase unit.')
 _rev('C01',
      technique=CLAIMED['C01']['technique'].replace('with get_next_imf replaced by its C04 contract', 'with get_next_imf replaced by its C04 contract, which is discharged in this check as well (the get_next_imf units are re-run)'))
